@@ -171,6 +171,18 @@ def main():
             return ComparatorResult(EqualityStatus.Equal, 'equal ' + recorded)
         return ComparatorResult(EqualityStatus.Different, '%s != %s' % (recorded, played))
 
+    if case.get('fork_fails_at'):
+        # resource fault: starting a worker process fails with EAGAIN at the given fork calls (1-based)
+        import errno
+        _real_fork = os.fork
+        fork_calls = [0]
+
+        def _fork():
+            fork_calls[0] += 1
+            if fork_calls[0] in case['fork_fails_at']:
+                raise OSError(errno.EAGAIN, 'Resource temporarily unavailable (injected)')
+            return _real_fork()
+        os.fork = _fork
     if case.get('slow_start'):
         # injected delay at an existing suspension point: the parent is descheduled right after a worker process was forked
         import multiprocessing.process as _mpp
@@ -200,6 +212,7 @@ def main():
     Equalizer._create_or_recycle_player_process_if_needed = recycle
     orig_kill = Equalizer._kill_compare_process
     late_waits = []
+    doomed = []
 
     def kill(self):
         # injected delay at an existing suspension point: when the current recording is scripted "late", the kill lands only
@@ -215,6 +228,10 @@ def main():
                 except Exception:
                     break
             late_waits.append(time.monotonic() - t0)
+        if case.get('kill_fails'):
+            # the kill is refused by the operating system (EPERM: the replayed code changed the worker's uid); the worker lives on
+            doomed.append(self._compare_process.pid)
+            raise PermissionError(1, 'Operation not permitted (injected)')
         orig_kill(self)
     Equalizer._kill_compare_process = kill
 
@@ -245,6 +262,10 @@ def main():
         if child != 0:
             os.waitpid(child, 0)
             os._exit(0)
+    if case.get('tighten_after'):
+        # timeout and recycle rate are live settings of the caller's configuration object: tightened after the equalizer(s) were built
+        cfg.compare_process_timeout = case['tighten_after']['timeout']
+        cfg.compare_process_recycle_rate = case['tighten_after']['recycle']
     if case.get('flip_mode'):
         # the execution mode is a live setting of the (shared) configuration object: it is switched to the dedicated process after the
         # equalizer(s) were built and before the comparison is consumed
@@ -309,7 +330,12 @@ def main():
             gone_after = time.monotonic() - t0
             break
         time.sleep(0.02)
-    survivors = [p for p in pids if alive(p)]
+    survivors = [p for p in pids if alive(p) and p not in doomed]
+    for p in doomed:
+        try:
+            os.kill(p, 9)
+        except OSError:
+            pass
     for p in survivors:
         try:
             os.kill(p, 9)
